@@ -774,6 +774,7 @@ func runCase(schema *sqlgen.Schema, c Case) (res *result) {
 	if c.Burst {
 		vb.SetUpdateDelay(400 * time.Millisecond)
 		for i := 0; i < 1100; i++ {
+			curBatch++ // every upsert is its own statement: one rows event each
 			var err error
 			if r.Chance(60) {
 				_, err = ldb.UpsertRow(bg, genUser(r, int64(1+r.Intn(6))))
